@@ -296,8 +296,15 @@ func runCase(ep *endpoint, srv *scripted, c scase, measureLeak bool) outcome {
 		if abortOp == 0 || wantTrailer {
 			opts = append(opts, grpc.Trailer(&trl))
 		}
+		parks := strings.ContainsAny(c.Srv, "WG") // the handler's script comes to a parking op
 		if abortOp == 'x' {
 			go func() {
+				if parks {
+					// (a loaded machine: give the handler time to get there before concluding anything)
+					for i := 0; i < 4000 && !cl.parked.Load(); i++ {
+						time.Sleep(500 * time.Microsecond)
+					}
+				}
 				quiesce(cl, 1, true)
 				cancel()
 			}()
@@ -337,8 +344,8 @@ func runCase(ep *endpoint, srv *scripted, c scase, measureLeak bool) outcome {
 			if abortOp == 0 || wantTrailer {
 				ev("t" + canonMD(trl))
 			}
-			if abortOp == 'd' && !cl.parked.Load() {
-				out.skip = true // the deadline passed before the handler had got to its parking op (loaded machine)
+			if abortOp != 0 && parks && !cl.parked.Load() {
+				out.skip = true // the context ended before the handler had got to its parking op (loaded machine)
 			}
 		}
 	} else {
